@@ -67,6 +67,26 @@ pub fn run(out: &mut Out, tier: &str, seed: u64) {
         out.case("perridx", &[&(if ei == usize::MAX { "max".to_string() } else { ei.to_string() }), &b.to_string(), &len.to_string()], &ri.to_string(), true);
     }
 
+    // Position::from_index, every byte value next to line breaks at every alignment within a 24-byte buffer:
+    // whatever way the prefix is scanned (byte-wise, word-wise, vector-wise), only 0x0a is a line break
+    for b in 0..=255u8 {
+        let pats: [&[u8]; 5] = [&[b'\n', b], &[b, b'\n'], &[b'\n', b, b], &[b'\n', b'\n', b], &[b, b, b'\n', b]];
+        for (k, pat) in pats.iter().enumerate() {
+            for off in 0..9usize {
+                if tier != "thorough" && (b as usize + k + off) % 3 != 0 {
+                    continue;
+                }
+                let mut data = vec![b'x'; 24];
+                data[off..off + pat.len()].copy_from_slice(pat);
+                for i in [off + pat.len(), 16, 24] {
+                    let (l, c) = sonic_rs::verif_hooks::position_from_index(i, &data);
+                    out.case("pos", &[&i.to_string(), &hex(&data)], &format!("{l},{c}"), true);
+                }
+                out.count("unit:linebreak-neighbours");
+            }
+        }
+    }
+
     // API level: every rejected input x every error-returning entry point
     for _ in 0..ndocs {
         let g = gen::gen_doc(&mut rng, &cfg);
